@@ -132,7 +132,14 @@ func Route(v *vrt.Ctx) {
 
 	// the empty input is an input too (the engine checks the format of
 	// non-empty input only): it matches the wildcard and nothing else
-	in := v.Bytes("input", v.Choice("inputlen", 1+v.Param("inputlen")))
+	var in []byte
+	if n := v.Choice("inputlen", 2+v.Param("inputlen")); n <= v.Param("inputlen") {
+		in = v.Bytes("input", n)
+	} else {
+		// an input with a formatting directive in it, spelled out (the message
+		// of the catch page is built with a format string)
+		in = []byte("5%d")
+	}
 	if len(in) > 0 {
 		_, verr := vm.ValidInput(in)
 		v.Assume(verr == nil)
